@@ -10,7 +10,7 @@ Transcribed branch for branch:
           : p, err := filepath.Rel(root, FullPath); err ? error
           : [fix] p == ".." || HasPrefix(p, "../") ? error          -- component check, added by the fix: commit
           : store filepath.ToSlash(p)
-  Get:    IsURL(stored) ? HTTP : !AllowFiles ? ErrFilestoreNotEnabled : open filepath.Join(root, FromSlash(stored))
+  Get:    IsURL(stored) ? (AllowUrls ? HTTP : ErrUrlstoreNotEnabled) : !AllowFiles ? ErrFilestoreNotEnabled : open filepath.Join(root, FromSlash(stored))
 `fixed = false` is the code before the fix: commit (kept for the counterexample theorem).
 Strings are byte strings (`PathClean.Str`); `filepath.*` are the Unix versions from `Lib.PathClean`.
 Core-only: imported by the driver.
@@ -49,12 +49,15 @@ def put (cfg : Cfg) (root full : Str) : PutRes :=
 
 inductive GetRes where
   | http
+  /-- readURLDataObj with the urlstore off: ErrUrlstoreNotEnabled -/
+  | urlDisabled
   | disabled
   | openFile (abspath : Str)
 deriving DecidableEq, Repr
 
 def get (cfg : Cfg) (root stored : Str) : GetRes :=
-  if isURL stored then .http
+  -- the kind of a reference is decided by its stored form, never by the current flags
+  if isURL stored then (if !cfg.allowUrls then .urlDisabled else .http)
   else if !cfg.allowFiles then .disabled
   else .openFile (join2 root stored)
 
